@@ -87,15 +87,20 @@ def main():
                 print("SELFTEST-ERROR seed %s: patch does not apply to the current tree: %s" % (sid, p.stdout[-200:]))
                 ok = False
                 continue
-            jobs.append((sid, meta["breaks_property"], repo))
+            jobs.append((sid, meta["breaks_property"], repo, bool(meta.get("undetected"))))
         def do(job):
-            sid, prop, repo = job
+            sid, prop, repo, und = job
             rc, rules, tail = run_check(repo, prop, os.path.join(scratch, "s-" + sid))
-            return sid, prop, rc, rules
+            return sid, prop, rc, rules, und
         with ThreadPoolExecutor(8) as ex:
-            for sid, prop, rc, rules in ex.map(do, jobs):
-                good = rc == 1 and rules
-                print("%s seed %-34s -> %s exit %d rules %s" % ("ok  " if good else "FAIL", sid, prop, rc, rules))
+            for sid, prop, rc, rules, und in ex.map(do, jobs):
+                if und:
+                    # recorded as out of reach of the static rules (DESIGN.md 9.5): the check must stay silent or fire - but never break (exit 2)
+                    good = rc in (0, 1)
+                    print("%s seed %-34s -> %s exit %d (recorded as undetected) %s" % ("ok  " if good else "FAIL", sid, prop, rc, rules))
+                else:
+                    good = rc == 1 and rules
+                    print("%s seed %-34s -> %s exit %d rules %s" % ("ok  " if good else "FAIL", sid, prop, rc, rules))
                 ok = ok and good
         # ---- benign twins must be silent
         if not only or "benign" in only:
